@@ -52,6 +52,9 @@ pub enum Step {
     Reopen { wait: bool },
     /// C10 only (C02 findings F2/F3 make its content unpredictable; C01 never generates it)
     DeleteAll,
+    /// switch the merge policy to LogMergePolicy(min_num_segments = 2) from here on: committed
+    /// segments that were left unmerged become merge candidates while a transaction is open
+    PolicyOn,
 }
 
 #[derive(Clone, Debug)]
@@ -59,6 +62,8 @@ pub struct Hist {
     pub threads: usize,
     pub merge_policy: bool,
     pub cut_docs: u32,
+    /// index sorted by the `id` fast field (the only configuration that uses `<seg>.store.temp`)
+    pub sorted: bool,
     pub steps: Vec<Step>,
 }
 
@@ -80,9 +85,10 @@ impl Hist {
                 Step::Gc => "gc".into(),
                 Step::Reopen { wait } => format!("reopen:{}", *wait as u8),
                 Step::DeleteAll => "deleteall".into(),
+                Step::PolicyOn => "policyon".into(),
             })
             .collect();
-        json!({"threads": self.threads, "merge_policy": self.merge_policy, "cut_docs": self.cut_docs, "steps": steps})
+        json!({"threads": self.threads, "merge_policy": self.merge_policy, "cut_docs": self.cut_docs, "sorted": self.sorted, "steps": steps})
     }
     pub fn from_json(v: &J) -> Option<Hist> {
         let mut steps = vec![];
@@ -98,6 +104,7 @@ impl Hist {
                 "gc" => Step::Gc,
                 "reopen" => Step::Reopen { wait: b == "1" },
                 "deleteall" => Step::DeleteAll,
+                "policyon" => Step::PolicyOn,
                 _ => return None,
             });
         }
@@ -105,6 +112,7 @@ impl Hist {
             threads: v["threads"].as_u64()? as usize,
             merge_policy: v["merge_policy"].as_bool()?,
             cut_docs: v["cut_docs"].as_u64()? as u32,
+            sorted: v["sorted"].as_bool().unwrap_or(false),
             steps,
         })
     }
@@ -156,6 +164,24 @@ pub fn gen_hist(rng: &mut Rng, max_steps: usize, with_delete_all: bool) -> Hist 
     // a merge of committed segments (target = that opstamp) then applies and persists the
     // uncommitted delete — a C02/C04 defect reported separately; these generators stay clear of
     // it so that a content difference here means storage, not that.
+    // sometimes: leave committed segments unmerged, then turn the policy on inside a transaction
+    // that has a pending delete and flushes segments (the updater reconsiders merges of the
+    // committed segments while the delete is uncommitted), then drop the transaction
+    let mut merge_policy = merge_policy;
+    if rng.chance(1, 3) {
+        merge_policy = false;
+        let first_commit = steps.iter().position(|s| *s == Step::Commit).unwrap_or(0);
+        let at = first_commit + 1 + rng.usize_below(steps.len() - first_commit);
+        let mut ins = vec![Step::PolicyOn, Step::Add(next_id), Step::DelGrp(rng.below(5)), Step::Add(next_id + 1), Step::Add(next_id + 2)];
+        next_id += 3;
+        if rng.chance(2, 3) {
+            ins.push(Step::Reopen { wait: true });
+        }
+        for (i, s) in ins.into_iter().enumerate() {
+            steps.insert(at + i, s);
+        }
+    }
+    let cut_docs = if steps.contains(&Step::PolicyOn) && cut_docs == 0 { 1 } else { cut_docs };
     let mut fresh = true;
     let mut out = Vec::with_capacity(steps.len() + 4);
     for s in steps {
@@ -171,7 +197,7 @@ pub fn gen_hist(rng: &mut Rng, max_steps: usize, with_delete_all: bool) -> Hist 
         }
         out.push(s);
     }
-    Hist { threads, merge_policy, cut_docs, steps: out }
+    Hist { threads, merge_policy, cut_docs, sorted: false, steps: out }
 }
 
 pub struct Fields {
@@ -201,16 +227,28 @@ pub struct RunOut {
     pub merges_err: u64,
 }
 
-fn new_writer(index: &Index, h: &Hist) -> tantivy::Result<IndexWriter> {
-    let w: IndexWriter = index.writer_with_num_threads(h.threads, 15_000_000 * h.threads)?;
-    if h.merge_policy {
+fn apply_policy(w: &IndexWriter, on: bool) {
+    if on {
         let mut p = LogMergePolicy::default();
         p.set_min_num_segments(2);
         w.set_merge_policy(Box::new(p));
     } else {
         w.set_merge_policy(Box::new(NoMergePolicy));
     }
+}
+
+fn new_writer(index: &Index, h: &Hist, policy_on: bool) -> tantivy::Result<IndexWriter> {
+    let w: IndexWriter = index.writer_with_num_threads(h.threads, 15_000_000 * h.threads)?;
+    apply_policy(&w, policy_on);
     Ok(w)
+}
+
+pub fn settings(h: &Hist) -> tantivy::IndexSettings {
+    let mut s = tantivy::IndexSettings::default();
+    if h.sorted {
+        s.sort_by_field = Some(tantivy::IndexSortByField { field: "id".to_string(), order: tantivy::Order::Asc });
+    }
+    s
 }
 
 /// what the point of a history is called when `observer` is invoked
@@ -244,7 +282,8 @@ pub fn run_history(
         merges_err: 0,
     };
     tantivy::verif::set_segment_cut_docs(h.cut_docs);
-    let index = match Index::create(vdir.clone(), schema, Default::default()) {
+    let mut policy_on = h.merge_policy;
+    let index = match Index::create(vdir.clone(), schema, settings(h)) {
         Ok(i) => i,
         Err(e) => {
             out.errors.push(format!("Index::create: {e}"));
@@ -257,7 +296,7 @@ pub fn run_history(
     let mut committed: Vec<u64> = vec![];
     let mut pending: Vec<Step> = vec![];
     let mut content_predictable = true;
-    let mut writer = match new_writer(&index, h) {
+    let mut writer = match new_writer(&index, h, policy_on) {
         Ok(w) => Some(w),
         Err(e) => {
             out.errors.push(format!("writer: {e}"));
@@ -310,6 +349,10 @@ pub fn run_history(
                 }
                 Err(e) => out.errors.push(format!("commit: {e}")),
             },
+            Step::PolicyOn => {
+                policy_on = true;
+                apply_policy(w, true);
+            }
             Step::Rollback => {
                 pending.clear();
                 if let Err(e) = w.rollback() {
@@ -317,13 +360,7 @@ pub fn run_history(
                 }
                 // rollback() builds a fresh IndexWriter inside, whose merge policy is the
                 // default one again: re-apply the history's choice
-                if h.merge_policy {
-                    let mut p = LogMergePolicy::default();
-                    p.set_min_num_segments(2);
-                    w.set_merge_policy(Box::new(p));
-                } else {
-                    w.set_merge_policy(Box::new(NoMergePolicy));
-                }
+                apply_policy(w, policy_on);
             }
             Step::Merge { wait } => {
                 let ids = index.searchable_segment_ids().unwrap_or_default();
@@ -360,7 +397,7 @@ pub fn run_history(
                 } else {
                     drop(old);
                 }
-                match new_writer(&index, h) {
+                match new_writer(&index, h, policy_on) {
                     Ok(w) => writer = Some(w),
                     Err(e) => out.errors.push(format!("writer (reopen): {e}")),
                 }
@@ -439,6 +476,11 @@ impl Trace {
 }
 
 pub fn tokenize(run: &RunOut) -> Result<Trace, String> {
+    tokenize_opt(run, false)
+}
+
+/// `managed_refs`: also intern the path lists of the `.managed.json` payloads (C10's R1–R3)
+pub fn tokenize_opt(run: &RunOut, managed_refs: bool) -> Result<Trace, String> {
     let mut t = Trace {
         toks: vec![],
         src: vec![],
@@ -505,6 +547,10 @@ pub fn tokenize(run: &RunOut) -> Result<Trace, String> {
                             let (opstamp, files) = meta_refs(data)?;
                             let refs: Vec<String> = files.iter().map(|f| t.id(f).to_string()).collect();
                             format!("a{p}:{opstamp}:{i}:{}:{}", data.len(), if refs.is_empty() { "-".into() } else { refs.join(".") })
+                        } else if managed_refs && r.path == MANAGED {
+                            let list: Vec<String> = serde_json::from_slice(data).map_err(|e| format!(".managed.json payload: {e}"))?;
+                            let refs: Vec<String> = list.iter().map(|f| t.id(f).to_string()).collect();
+                            format!("a{p}:0:{i}:{}:{}", data.len(), if refs.is_empty() { "-".into() } else { refs.join(".") })
                         } else {
                             format!("a{p}:0:{i}:{}:-", data.len())
                         }
@@ -1123,9 +1169,13 @@ pub fn run(ctx: &mut Ctx) {
     }
     // corpus: the S1 scenarios, every boundary
     let corpus = [
-        Hist { threads: 1, merge_policy: false, cut_docs: 0, steps: vec![Step::Add(1), Step::Add(2), Step::Commit, Step::Add(3), Step::Commit] },
-        Hist { threads: 1, merge_policy: false, cut_docs: 0, steps: vec![Step::Add(1), Step::Add(5), Step::Add(6), Step::Commit, Step::DelGrp(1), Step::Commit, Step::DelGrp(0), Step::Add(7), Step::Commit] },
-        Hist { threads: 1, merge_policy: false, cut_docs: 1, steps: vec![Step::Add(1), Step::Add(2), Step::Commit, Step::Merge { wait: true }, Step::Add(3), Step::Commit] },
+        Hist { threads: 1, merge_policy: false, cut_docs: 0, sorted: false, steps: vec![Step::Add(1), Step::Add(2), Step::Commit, Step::Add(3), Step::Commit] },
+        Hist { threads: 1, merge_policy: false, cut_docs: 0, sorted: false, steps: vec![Step::Add(1), Step::Add(5), Step::Add(6), Step::Commit, Step::DelGrp(1), Step::Commit, Step::DelGrp(0), Step::Add(7), Step::Commit] },
+        Hist { threads: 1, merge_policy: false, cut_docs: 1, sorted: false, steps: vec![Step::Add(1), Step::Add(2), Step::Commit, Step::Merge { wait: true }, Step::Add(3), Step::Commit] },
+        // >= 2 committed segments, policy switched on inside a transaction with a pending delete
+        // that hits them, segments flushed (the updater reconsiders merges), transaction dropped
+        Hist { threads: 1, merge_policy: false, cut_docs: 1, sorted: false, steps: vec![Step::Add(1), Step::Add(2), Step::Add(3), Step::Commit, Step::Add(4), Step::Add(6), Step::Commit,
+            Step::PolicyOn, Step::Add(7), Step::DelGrp(1), Step::Add(8), Step::Add(9), Step::Reopen { wait: true }, Step::Add(10), Step::Commit] },
     ];
     let thorough = ctx.thorough();
     for h in &corpus {
